@@ -57,12 +57,28 @@ def multiple_of(v, m):
         return Fraction(v) % Fraction(m) == 0
 
 
-def valid(S, v, formats=None, deviations=True):
-    """Is JSON value v valid against schema S (dict or bool)?"""
+def resolve(root, ref):
+    if not ref.startswith("#"):
+        raise KeyError(ref)
+    node = root
+    for part in ref[1:].split("/"):
+        if part == "":
+            continue
+        part = part.replace("~1", "/").replace("~0", "~")
+        node = node[int(part)] if isinstance(node, list) else node[part]
+    return node
+
+
+def valid(S, v, formats=None, deviations=True, root=None):
+    """Is JSON value v valid against schema S (dict or bool)?  `root` resolves "$ref": "#/..." pointers."""
     if S is True:
         return True
     if S is False:
         return False
+    if root is None:
+        root = S
+    if "$ref" in S:
+        return valid(resolve(root, S["$ref"]), v, formats, deviations, root)
     g = S.get
     if "type" in S:
         ts = S["type"] if isinstance(S["type"], list) else [S["type"]]
@@ -98,10 +114,10 @@ def valid(S, v, formats=None, deviations=True):
         if isinstance(items, list):
             for i, x in enumerate(v):
                 sub = items[i] if i < len(items) else g("additionalItems", True)
-                if not valid(sub, x, formats):
+                if not valid(sub, x, formats, deviations, root):
                     return False
         else:
-            if not all(valid(items, x, formats) for x in v):
+            if not all(valid(items, x, formats, deviations, root) for x in v):
                 return False
         if "maxItems" in S and not len(v) <= S["maxItems"]:
             return False
@@ -109,7 +125,7 @@ def valid(S, v, formats=None, deviations=True):
             return False
         if g("uniqueItems", False) and any(json_eq(v[a], v[b]) for a in range(len(v)) for b in range(a + 1, len(v))):
             return False
-        if "contains" in S and not any(valid(S["contains"], x, formats) for x in v):
+        if "contains" in S and not any(valid(S["contains"], x, formats, deviations, root) for x in v):
             return False
     if isinstance(v, dict):
         if "maxProperties" in S and not len(v) <= S["maxProperties"]:
@@ -120,6 +136,8 @@ def valid(S, v, formats=None, deviations=True):
         for r in g("required", []):
             if r not in v:
                 sub = props.get(r)
+                if isinstance(sub, dict) and "$ref" in sub:
+                    sub = resolve(root, sub["$ref"])
                 if deviations and isinstance(sub, dict) and "default" in sub:      # Dev-3
                     continue
                 return False
@@ -129,30 +147,30 @@ def valid(S, v, formats=None, deviations=True):
             matched = False
             if k in props:
                 matched = True
-                if not valid(props[k], x, formats):
+                if not valid(props[k], x, formats, deviations, root):
                     return False
             for p, sub in pats.items():
                 if re.search(p, k) is not None:
                     matched = True
-                    if not valid(sub, x, formats):
+                    if not valid(sub, x, formats, deviations, root):
                         return False
-            if not matched and not valid(addl, x, formats):
+            if not matched and not valid(addl, x, formats, deviations, root):
                 return False
         for k, dep in g("dependencies", {}).items():
             if k in v:
                 if isinstance(dep, list):
                     if any(d not in v for d in dep):
                         return False
-                elif not valid(dep, v, formats):
+                elif not valid(dep, v, formats, deviations, root):
                     return False
-        if "propertyNames" in S and not all(valid(S["propertyNames"], k, formats) for k in v):
+        if "propertyNames" in S and not all(valid(S["propertyNames"], k, formats, deviations, root) for k in v):
             return False
-    if "allOf" in S and not all(valid(s, v, formats) for s in S["allOf"]):
+    if "allOf" in S and not all(valid(s, v, formats, deviations, root) for s in S["allOf"]):
         return False
-    if "anyOf" in S and not any(valid(s, v, formats) for s in S["anyOf"]):
+    if "anyOf" in S and not any(valid(s, v, formats, deviations, root) for s in S["anyOf"]):
         return False
-    if "oneOf" in S and sum(1 for s in S["oneOf"] if valid(s, v, formats)) != 1:
+    if "oneOf" in S and sum(1 for s in S["oneOf"] if valid(s, v, formats, deviations, root)) != 1:
         return False
-    if "not" in S and valid(S["not"], v, formats):
+    if "not" in S and valid(S["not"], v, formats, deviations, root):
         return False
     return True
